@@ -49,6 +49,7 @@ import (
 	"github.com/nuts-foundation/go-did/did"
 	"github.com/nuts-foundation/go-did/vc"
 	"github.com/nuts-foundation/nuts-node/audit"
+	"github.com/nuts-foundation/nuts-node/auth/api/iam"
 	"github.com/nuts-foundation/nuts-node/core"
 	nutsCrypto "github.com/nuts-foundation/nuts-node/crypto"
 	"github.com/nuts-foundation/nuts-node/crypto/storage/spi"
@@ -1048,6 +1049,64 @@ func (n *c01Nodes) run(o *c01Out, c c01Call) string {
 	o.emit(op, line)
 	o.stats[c.kind+":"+strings.SplitN(line, " ", 2)[0]]++
 	return line
+}
+
+// deepening round 3: one step of the first loop of auth/api/iam handleS2SAccessTokenRequest on a presentation: the real
+// validateS2SPresentationMaxValidity and validatePresentationSigner(presentation, expected). Returns the subject to thread on, "" on refusal.
+func (n *c01Nodes) runS2S(o *c01Out, text, expected, label string) string {
+	tb := &c01Tables{urls: map[string]any{}, dids: map[string]any{}}
+	op := map[string]any{"op": "s2s-vp", "label": label, "expected": expected, "text": text, "now": time.Now().UnixMilli(), "at": nil}
+	line, next := "", ""
+	func() {
+		defer func() {
+			if r := recover(); r != nil {
+				line = "panic"
+			}
+		}()
+		vp, err := vc.ParseVerifiablePresentation(text)
+		if err != nil {
+			op["doc"] = nil
+			line = "unparseable"
+			return
+		}
+		op["doc"] = n.w.viewVP(*vp, tb)
+		validity := "ok"
+		if err := iam.VerifValidateS2SPresentationMaxValidity(*vp); err != nil {
+			switch {
+			case strings.Contains(err.Error(), "missing creation or expiration"):
+				validity = "missing-date"
+			case strings.Contains(err.Error(), "valid for too long"):
+				validity = "too-long"
+			default:
+				validity = "other-error"
+			}
+		}
+		var exp did.DID
+		if expected != "" {
+			exp = did.MustParseDID(expected)
+		}
+		signer := ""
+		d, err := iam.VerifValidatePresentationSigner(*vp, exp)
+		switch {
+		case err == nil && d != nil:
+			signer = d.String()
+			if validity == "ok" {
+				next = signer
+			}
+		case err == nil:
+			signer = "nil"
+		case err.Error() == "presentation signer is not credential subject":
+			signer = "err:not-subject"
+		case err.Error() == "not all presentations have the same credential subject ID":
+			signer = "err:not-same"
+		default:
+			signer = "err:resolve"
+		}
+		line = "validity=" + validity + " signer=" + signer
+	}()
+	op["urls"], op["dids"] = tb.urls, tb.dids
+	o.emit(op, line)
+	return next
 }
 
 // ---------------------------------------------------------------- mutation engine (generic JSON trees)
@@ -3012,6 +3071,59 @@ func (n *c01Nodes) mixedPresentations(o *c01Out, rnd *rand.Rand, creds map[strin
 			}
 		}
 	}
+	// deepening round 3: ENVELOPES of presentations through the first loop of the S2S token handler (auth/api/iam): validity window of the
+	// signed dates (3 s, exactly 5 s, 6 s, no expiry) x presenter = subject of every credential x one subject across all presentations
+	{
+		ownLD, ownJWT := creds["plain:ldp_vc"], creds["plain:jwt_vc"]
+		victimO := n.handIssueTo(didJ, didJ+"#k10", vc.JSONLDCredentialProofFormat, issuedAt, didO, "-s2s-victim")
+		aboutI := n.handIssueTo(didJ, didJ+"#k10", vc.JSONLDCredentialProofFormat, issuedAt, didI, "-s2s-about-i")
+		type s2sVP struct {
+			signer string
+			names  []string
+			texts  []string
+			window int64 // seconds between created and expires; <0: no expiry
+			holder bool
+		}
+		envs := []struct {
+			tag string
+			vps []s2sVP
+		}{
+			{"same-subject", []s2sVP{{didH, []string{"own-ld", "own-jwt"}, []string{ownLD, ownJWT}, 3, true}, {didH, []string{"own-ld"}, []string{ownLD}, 5, false}}},
+			{"other-subject-second", []s2sVP{{didH, []string{"own-ld"}, []string{ownLD}, 3, false}, {didI, []string{"about-i"}, []string{aboutI}, 3, false}}},
+			{"empty-first", []s2sVP{{didH, nil, nil, 3, false}, {didH, []string{"own-jwt"}, []string{ownJWT}, 3, true}}},
+			{"empty-other-signer-second", []s2sVP{{didH, []string{"own-ld"}, []string{ownLD}, 3, false}, {didI, nil, nil, 3, false}}},
+			{"empty-first-other-subject-second", []s2sVP{{didI, nil, nil, 3, false}, {didH, []string{"own-ld"}, []string{ownLD}, 3, false}}},
+			{"mixed-subjects", []s2sVP{{didH, []string{"own-ld", "VICTIM"}, []string{ownLD, victimO}, 3, false}}},
+			{"mixed-subjects-victim-first", []s2sVP{{didH, []string{"VICTIM", "own-jwt"}, []string{victimO, ownJWT}, 3, true}}},
+			{"victim-only", []s2sVP{{didH, []string{"VICTIM"}, []string{victimO}, 3, false}}},
+			{"too-long", []s2sVP{{didH, []string{"own-ld"}, []string{ownLD}, 6, false}}},
+			{"too-long-second", []s2sVP{{didH, []string{"own-ld"}, []string{ownLD}, 5, false}, {didH, []string{"own-jwt"}, []string{ownJWT}, 600, false}}},
+			{"no-expiry", []s2sVP{{didH, []string{"own-ld"}, []string{ownLD}, -1, false}}},
+			{"three", []s2sVP{{didH, []string{"own-ld"}, []string{ownLD}, 1, false}, {didH, nil, nil, 0, false}, {didH, []string{"own-ld", "VICTIM", "own-jwt"}, []string{ownLD, victimO, ownJWT}, 2, true}}},
+		}
+		for _, f := range formats {
+			for _, e := range envs {
+				expected := ""
+				for k, p := range e.vps {
+					var hp *string
+					if p.holder {
+						h := p.signer
+						hp = &h
+					}
+					var ex *int64
+					if p.window >= 0 {
+						ex = p64(issuedAt + 20 + p.window)
+					}
+					text := n.present(p.texts, f, p.signer, hp, issuedAt+20, ex, false)
+					label := "s2s-" + e.tag + ":" + f + "#" + strconv.Itoa(k) + "[" + strings.Join(p.names, ",") + "]"
+					expected = n.runS2S(o, text, expected, label)
+					if expected == "" {
+						break // the handler returns the error
+					}
+				}
+			}
+		}
+	}
 	// random longer lists
 	nRand := 24
 	if thorough {
@@ -3392,6 +3504,8 @@ func (n *c01Nodes) replay(o *c01Out, file string, prefix string) {
 			n.trustFile(o, rows)
 		case "case-variant":
 			c01CaseVariantOp(o, prefix+str("label"), str("text"), str("into"))
+		case "s2s-vp":
+			n.runS2S(o, str("text"), str("expected"), prefix+str("label"))
 		case "revstore":
 			var docs []bool
 			if arr, ok := op["docs"].([]any); ok {
